@@ -402,9 +402,57 @@ def task_sequence(p, order, tier, seed):
     return part.d
 
 
+def task_py_boundary(tier, seed):
+    """The boundary in doubles, Python side: the decision of the real remove_innovation equals
+    NIS > fl(fl(k * fl(sqrt(2m))) + m) for NIS on the boundary and 1..3 ulps on either side (the property names the
+    boundary: 'strictly greater').  The innovation is e1 and S^-1 = diag(n, 1, ..), so the quadratic form is exactly the
+    double n.  Concrete sweep (the C++ helper has the corresponding QF_FP query; the Python arithmetic goes through
+    numpy.matmul, which is outside the encodable fragment)."""
+    import dataclasses
+
+    part = Part()
+    part.program("P1-xy")
+    part.fn("python.ExtendedKalmanFilter.remove_innovation")
+    p = CP.P1()
+    with quiet():
+        ekf = pyh.build_ekf_float(p, {}, k=1.0)
+    ks = [i / 20.0 for i in range(1, 121)] + [0.3, 2.5758293035489, 3.0902323061678132, 1e-3, 17.25, 100.0]
+    if tier == "quick":
+        ks = ks[::3] + [2.25, 5.65, 0.2, 0.05, 0.5]
+    n_pts = 0
+    for m in (1, 2, 3, 4, 5, 6):
+        inn = np.zeros((m, 1))
+        inn[0, 0] = 1.0
+        for k in ks:
+            try:
+                ekf.config = dataclasses.replace(ekf.config, innovation_filtering=k)
+            except Exception:
+                with quiet():
+                    ekf = pyh.build_ekf_float(p, {}, k=k)
+            thr = k * math.sqrt(2 * m) + m
+            cands = [thr]
+            up = dn = thr
+            for _ in range(3):
+                up, dn = math.nextafter(up, math.inf), math.nextafter(dn, -math.inf)
+                cands += [up, dn]
+            for n in cands:
+                Sinv = np.eye(m)
+                Sinv[0, 0] = n
+                got = bool(ekf.remove_innovation(inn, Sinv))
+                want = n > thr
+                n_pts += 1
+                if got != want:
+                    part.record(Q("sat", None, 0.0, ""), "py/remove_innovation/boundary-in-doubles")
+                    path = write_replay(PID, {"key": "py/remove_innovation/boundary", "info": {"kind": "py-boundary"}, "inputs": {"k": k, "m": m, "nis": n}, "got": got, "want": want})
+                    part.violation("py/remove_innovation/boundary", f"remove_innovation returns {got} for NIS={n!r}, k={k!r}, m={m}: the threshold k*sqrt(2m)+m is {thr!r} in doubles, so 'strictly greater' is {want}", path)
+                    return part.d
+    part.record(Q("unsat", None, 0.0, ""), f"py/remove_innovation/boundary-in-doubles: {n_pts} points on and within 3 ulps of the boundary, m = 1..6 (concrete sweep)")
+    return part.d
+
+
 def py_tasks(tier, seed):
     ms = [1, 2, 3] if tier == "quick" else [1, 2, 3, 4, 8]
-    t = [(task_decision, (m, tier, seed)) for m in ms]
+    t = [(task_decision, (m, tier, seed)) for m in ms] + [(task_py_boundary, (tier, seed))]
     progs = [CP.P1(), CP.P3(), CP.P8()] if tier == "quick" else [CP.P1(), CP.P2(), CP.P3(), CP.P7(), CP.P8(), CP.P10()]
     for p in progs:
         for key in p.sensors:
@@ -455,6 +503,19 @@ def replay(path):
 
         return cfgrb.replay(PID, r["info"])
     info = r["info"]
+    if info["kind"] == "py-boundary":
+        i = r["inputs"]
+        with quiet():
+            ekf = pyh.build_ekf_float(CP.P1(), {}, k=i["k"])
+        inn = np.zeros((i["m"], 1))
+        inn[0, 0] = 1.0
+        Sinv = np.eye(i["m"])
+        Sinv[0, 0] = i["nis"]
+        got = bool(ekf.remove_innovation(inn, Sinv))
+        want = i["nis"] > i["k"] * math.sqrt(2 * i["m"]) + i["m"]
+        print(got, want)
+        print("REPRODUCED" if got != want else "not reproduced")
+        return 1 if got != want else 0
     if info["kind"] == "decision":
         i = r["inputs"]
         try:
